@@ -183,8 +183,12 @@ func VF_NodeSign() {
 			req := requests.SigningProposalBatchPartialSignRequests{BatchID: batch, ParticipantId: i, PartialSigns: signs, CreatedAt: vf.Time(tag + ".created" + strconv.Itoa(i))}
 			return e.node.ProcessMessage(vfSignedMessage("event_signing_partial_sign_received", i, req))
 		}
+		latePos := -1
+		if lateFrom >= 0 {
+			latePos = vf.Choose("late.pos", t) // before the first, or between two, of the t answers of this batch
+		}
 		for k := 0; k < t; k++ {
-			if lateFrom >= 0 && k == 1 {
+			if k == latePos {
 				// the slow participant's answer to the PREVIOUS batch lands in the middle of this one
 				pre := vfTake(e, []string{"round"})
 				lerr := answer(lateFrom, lateBatch, latePayloads, "late")
